@@ -184,6 +184,33 @@ def _dyadic_linear(n_in, n_out, seed, dtype):
     return lin
 
 
+def LISTED_PRICE(spot):
+    """Deterministic dyadic pricer of the listed hedge: a convex function of the underlier's spot."""
+    return torch.nn.functional.relu(spot - 1.125) + 0.25 * spot
+
+
+def oracle_spots(hl):
+    """Current prices of the hedging instruments, computed WITHOUT going through ``listed.spot``
+    (so a stale / cached listed price is visible): primaries by their buffer, the listed option by
+    the pricing rule applied to the underlier's current buffer."""
+    cols = []
+    for h in hl:
+        if hasattr(h, "named_buffers"):
+            cols.append(h.get_buffer("spot"))
+        else:
+            cols.append(LISTED_PRICE(h.ul().get_buffer("spot")))
+    return torch.stack(cols, dim=1)
+
+
+def round_paths(spot, r):
+    """Path set registered by the r-th (re-)simulation: dyadic, different from round to round."""
+    if r == 0:
+        return spot
+    if r == 1:
+        return spot.flip(0) * 0.5 + 0.5
+    return (spot.flip(1) * 1.5 - 0.25).clamp(min=0.25)
+
+
 def build_world(block):
     """Real instruments with scripted buffers + a hedger.  Returns (hedger, derivative, hedge_list)."""
     import pfhedge.instruments as I
@@ -191,7 +218,7 @@ def build_world(block):
     dtype = DT[block["dtype"]]
     T = block["T"]
     A = [a / SCALE for a in block["A"]]
-    costs = [c / SCALE / 16 for c in block["costs"]]  # dyadic, small
+    costs = [c / SCALE / 16 for c in block["costs"]]  # dyadic, small; may contain zeros
     spot = all_paths(A, T, dtype=dtype)
     if block.get("rows") is not None:
         spot = spot[block["rows"]]
@@ -216,8 +243,7 @@ def build_world(block):
     if hv in ("stock+listed", "listed", "listed+stock"):
         listed = I.EuropeanOption(stock, strike=1.125, maturity=(T - 1) * market.DT)
         # deterministic dyadic pricer: a convex function of the underlier's spot
-        listed.list(lambda d: torch.nn.functional.relu(d.ul().spot - 1.125) + 0.25 * d.ul().spot,
-                    cost=costs[-1])
+        listed.list(lambda d: LISTED_PRICE(d.ul().spot), cost=costs[-1])
     hedge = {"default": None, "stock": [stock], "stock+stock2": [stock, stock2],
              "stock+listed": [stock, listed], "listed+stock": [listed, stock], "listed": [listed]}[hv]
     H = 1 if hedge is None else len(hedge)
@@ -259,16 +285,38 @@ def hedger_blocks_ok(block):
 
 @family
 def hedger_pl(ctx, block):
-    hedger, deriv, hedge, _ = build_world(block)
-    exact = block["model"] in ("linear", "linear_prev", "naked") and block["derivative"] in (
-        "european", "lookback", "european_binary", "american_binary")
+    hedger, deriv, hedge, (stock, stock2, listed) = build_world(block)
+    # bitwise comparison only where every intermediate is exactly representable: float64, dyadic
+    # model, and (for the recurrent model, whose mantissa grows ~12 bits per step) T <= 3;
+    # otherwise a derived rounding tolerance (8*H*T*eps*scale) - mutations move values at O(1e-2).
+    exact = (block["model"] in ("linear", "linear_prev", "naked") and block["derivative"] in (
+        "european", "lookback", "european_binary", "american_binary") and block["dtype"] == "float64"
+        and (block["model"] != "linear_prev" or block["T"] <= 3))
+    base_spot = stock.get_buffer("spot").clone()
+    rounds = block.get("rounds", [0])
+    for r in rounds:
+        if r > 0:
+            # re-simulate THROUGH THE HEDGED DERIVATIVE (r=1) or the primary itself (r=2): the listed
+            # hedge and the hedger see new prices without having been touched themselves
+            sim = market.ScriptedSimulate(stock, [{"spot": round_paths(base_spot, r)}])
+            try:
+                if r == 1:
+                    deriv.simulate(n_paths=base_spot.size(0))
+                else:
+                    stock.simulate(n_paths=base_spot.size(0), time_horizon=deriv.maturity)
+            finally:
+                sim.remove()
+        _hedger_round(ctx, block, hedger, deriv, hedge, exact, r)
+
+
+def _hedger_round(ctx, block, hedger, deriv, hedge, exact, r):
     with torch.no_grad():
         pl = hedger.compute_pl(deriv, hedge=hedge)
         pf = hedger.compute_portfolio(deriv, hedge=hedge)
         unit = hedger.compute_hedge(deriv, hedge=hedge)
         payoff = deriv.payoff()
     hl = hedge if hedge is not None else list(deriv.underliers())
-    spots = torch.stack([h.spot for h in hl], dim=1)
+    spots = oracle_spots(hl)
     costs = [h.cost for h in hl]
     N, H, T = spots.shape
     ctx.tick(2 * N, nontrivial=2 * int((unit[..., 1:] != unit[..., :-1]).any(-1).any(-1).sum()))
@@ -292,17 +340,39 @@ def hedger_pl(ctx, block):
                 ok = False
             if not ok:
                 mini = dict(block)
-                base = block.get("rows")
-                mini["rows"] = [base[i] if base is not None else i]
-                ctx.violation("Hedger." + name, f"identity_{block['hedge']}",
+                if r == 0:
+                    base = block.get("rows")
+                    mini["rows"] = [base[i] if base is not None else i]
+                    mini["rounds"] = [0]
+                zero_cost = any(c == 0 for c in costs) and any(c != 0 for c in costs)
+                ctx.violation("Hedger." + name,
+                              f"identity_{block['hedge']}" + ("_mixedcost" if zero_cost else "") + (f"_round{r}" if r else ""),
                               f"{name} != wealth identity on hedge list {block['hedge']} "
-                              f"(model={block['model']}, derivative={block['derivative']})",
+                              f"(model={block['model']}, derivative={block['derivative']}, costs={costs}, "
+                              f"after {r} re-simulation(s))",
                               observed=got, expected=float(exp), block=mini)
-    ctx.outcome((block["hedge"], block["model"], round(float(pl.sum()), 9)))
+    # deprecated compute_pnl = simulate + compute_pl: same identity on the (scripted) simulated paths
+    if block.get("pnl") and r == 0:
+        prim = list(deriv.underliers())[0]
+        script = {n: b.clone() for n, b in prim.named_buffers()}
+        sim = market.ScriptedSimulate(prim, [script])
+        try:
+            with torch.no_grad():
+                pnl = hedger.compute_pnl(deriv, hedge=hedge, n_paths=N, init_state=(1.25,))
+        finally:
+            sim.remove()
+        ctx.tick(N)
+        if sim.calls != 1 or sim.log[0]["n_paths"] != N or sim.log[0]["init_state"] != (1.25,):
+            ctx.violation("Hedger.compute_pnl", "simulate_arguments", f"simulate log {sim.log}", block=block)
+        if not torch.equal(pnl, pl):
+            ctx.violation("Hedger.compute_pnl", f"identity_{block['hedge']}",
+                          "compute_pnl != compute_pl on the same simulated paths",
+                          observed=pnl[:4].tolist(), expected=pl[:4].tolist(), block=block)
+    ctx.outcome((block["hedge"], block["model"], r, round(float(pl.sum()), 9)))
     if len(ctx.samples) < 5 and block["hedge"] != "stock":
         i = N // 3
         ctx.sample({"family": "hedger_pl", "block": {k: v for k, v in block.items() if k != "rows"}, "path": i,
-                    "spots": sl[i], "hedge": ul[i], "costs": costs, "payoff": zl[i],
+                    "round": r, "spots": sl[i], "hedge": ul[i], "costs": costs, "payoff": zl[i],
                     "compute_pl": pll[i], "reference": float(pl_fraction(sl[i], ul[i], costs, zl[i], True))})
 
 
@@ -366,12 +436,18 @@ def run(ctx):
         if ctx.quick and T == 4 and dk not in ("european", "lookback"):
             continue
         block = {"T": T, "A": A, "costs": [1, 3, 2], "hedge": hv, "model": mv, "derivative": dk,
-                 "dtype": dtype, "wseed": ctx.seed % 7}
+                 "dtype": dtype, "wseed": ctx.seed % 7, "pnl": T == 3, "rounds": [0, 1, 2]}
         if not hedger_blocks_ok(block):
             continue
         if dtype == "float32" and mv in ("bs", "ww"):
             continue  # transcendental models are compared in float64 only
         ctx.run("hedger_pl", block)
+        if T == 3 and dtype == "float64" and mv in ("linear", "linear_prev") and (dk == "european" or ctx.thorough):
+            for cv in ([0, 3, 2], [1, 0, 0], [0, 0, 2], [0, 0, 0]):
+                b3 = dict(block)
+                b3["costs"] = cv
+                b3["rounds"] = [0]
+                ctx.run("hedger_pl", b3)
         if dk in ("european", "european_binary") and mv in ("linear", "bs") and hv in ("stock", "stock+listed"):
             b2 = dict(block)
             b2["call"] = False
